@@ -4,7 +4,7 @@
       and no other entity is affected - for every capacity increment, every table size,
       every position of the entity in its table. *)
 From Arche Require Import Model.Base Model.Pool Model.Filter Model.World Model.Ops
-  Proofs.Tables Proofs.Bits Proofs.Store Proofs.Graph Proofs.Atomic.
+  Proofs.Tables Proofs.Bits Proofs.Store Proofs.Graph Proofs.Atomic Proofs.GhostBase.
 
 Definition ent_mask (w : world) (e : Entity) : option N :=
   ent_cells w e ≫= fun '(nid, _, _) => w_nodes w !! nid ≫= fun nd => Some (n_mask nd).
@@ -448,6 +448,40 @@ Definition issued_after (w : world) (o : op) (issued : list Entity) : list Entit
   | _ => issued
   end.
 
+(** The world a panicking creation or exchange leaves behind keeps the invariant: it is an
+    extension of [w] by empty graph nodes (and at most one empty table). *)
+Lemma ext_ok2 w w1 live issued : ext w w1 -> graph_ok w1 -> world_ok2 w live issued -> world_ok2 w1 live issued.
+Proof.
+  intros E G1 [[S G NR] [frees P] L]. split; [split|exists frees; by rewrite (ex_pool _ _ E)|by rewrite (ex_index _ _ E), (ex_pool _ _ E)].
+  - by eapply ext_store_ok.
+  - done.
+  - by eapply no_rel_ext.
+Qed.
+
+Lemma foc_world_ok2 w live issued src add rem tg :
+  world_ok2 w live issued -> world_ok2 (foc_world w src add rem tg) live issued.
+Proof.
+  intros K. pose proof K as [[S G NR] _ _].
+  apply (foc_world_ind (fun _ w1 => world_ok2 w1 live issued)); [done| |].
+  - intros w1 tid H. unfold find_or_create_table in H.
+    destruct (w_tables w !! src) as [st|] eqn:Hst; [|done]. destruct (w_nodes w !! t_node st) as [sn|] eqn:Hsn; [|done].
+    assert (H' : find_or_create_table w src add rem tg = Some (w1, tid)) by (unfold find_or_create_table; by rewrite Hst, Hsn).
+    destruct (find_or_create_table_ok w src add rem tg st sn w1 tid G NR Hst Hsn H') as (E & G1 & _). by apply (ext_ok2 w).
+  - intros st sn wa m1 rel1 pre m2 r2 w1 Hst Hsn Hr Hp Ha.
+    rewrite (go_norel _ G _ _ Hsn) in Hr.
+    pose proof (walk_rem_ok rem w (n_mask sn) G NR (ex_intro _ _ (ex_intro _ sn (conj Hsn eq_refl)))) as H1.
+    rewrite Hr in H1. destruct H1 as (E1 & G1 & _ & _ & -> & _ & Hn1).
+    destruct (walk_add_ok pre wa (n_mask sn) m1 w1 m2 r2 G1 (no_rel_ext _ _ E1 NR) Hn1 Ha) as (E2 & G2 & _).
+    apply (ext_ok2 w); [by eapply ext_trans|done|done].
+Qed.
+
+Lemma ghost_of_ok2 w live issued o : world_ok2 w live issued -> world_ok2 (ghost_of w o) live issued.
+Proof.
+  intros K. destruct (ghost_of_case w o) as [->|[(tg & _ & _ & ->)|(e & rem & rel & ->)]]; [done|by apply foc_world_ok2|].
+  destruct (exchange_ghost_case w e (ghost_ids o) rem rel) as [->|(src & row & st & sn & mask & tg & _ & _ & _ & _ & _ & _ & _ & ->)];
+    [done|by apply foc_world_ok2].
+Qed.
+
 Theorem core_step_ok w live issued o :
   world_ok2 w live issued -> core_op o -> addresses_issued issued o ->
   exists live', world_ok2 (fst (fst (step w o))) live' (issued_after w o issued).
@@ -459,7 +493,7 @@ Proof.
     + destruct v; try (exfalso; unfold op_new in H; destruct (is_locked w); [done|];
         destruct (match ids with [] => _ | _ => _ end) as [[? ?]|]; [|done]; destruct (create_entity _ _); destruct (table_mask_rel _ _); done).
       destruct (new_entity_ok w live issued ids w1 e evs K H) as (_ & K1 & _). by exists (e :: live).
-    + apply Proofs.Atomic.op_new_panic in H as [-> _]. by exists live.
+    + apply Proofs.Atomic.op_new_panic in H as [-> _]. exists live. by apply (ghost_of_ok2 w live issued (ONew ids)).
     + exfalso. unfold op_new in H. destruct (is_locked w); [done|].
       destruct (match ids with [] => _ | _ => _ end) as [[? ?]|]; [|done]. destruct (create_entity _ _). destruct (table_mask_rel _ _). done.
   - unfold op_exchange. destruct (exchange_nn w e add rem None) as [[w1 [x|]]|] eqn:H; simpl.
@@ -469,7 +503,7 @@ Proof.
       by exists live.
     + assert (w1 = w) as -> by (by eapply exchange_nn_none_same).
       by exists live.
-    + by exists live.
+    + exists live. by apply (ghost_of_ok2 w live issued (OExchange e add rem)).
   - destruct (set_comp w e id v) as [w1|] eqn:H; simpl; [|by exists live].
     assert (He : e ∈ live).
     { eapply chk_alive_live; [exact K|exact Ha|]. unfold set_comp in H. by destruct (chk_alive w e) as [[]|]. }
